@@ -40,6 +40,12 @@ class Def:
         self.defaults = defaults or {}  # tparam -> texpr
         self.where = where or []    # raw where predicates
         self.align = align          # n of an extra repr(align(n)) (also listed in reprs)
+        self.module = None          # Rust module holding the definition (mutants of a definition keep its name)
+        self.key = name             # unique key in the universe
+
+    @property
+    def path(self):
+        return (self.module + "::" + self.name) if self.module else self.name
 
 
 class Universe:
@@ -48,8 +54,8 @@ class Universe:
         self.order = []
 
     def add(self, d):
-        self.defs[d.name] = d
-        self.order.append(d.name)
+        self.defs[d.key] = d
+        self.order.append(d.key)
 
 
 # ------------------------------------------------------------------ structural helpers
@@ -268,7 +274,7 @@ def rust_ty(U, t, lt="'static"):
     if k == "adt":
         d = U.defs[t[1]]
         args = [rust_ty(U, a, lt) for a in t[2]] + [rust_const(ct, cv) for (_, ct, cv) in d.cparams]
-        return d.name + ("<%s>" % ", ".join(args) if args else "")
+        return d.path + ("<%s>" % ", ".join(args) if args else "")
     if k == "param":
         return t[1]
     raise ValueError(t)
@@ -369,17 +375,17 @@ def rust_val(U, t, v, cx):
         if d.kind == "struct":
             vals = [rust_val(U, ft, x, cx) for (_, _, ft), x in zip(b, v[1])]
             if d.style == "named":
-                return "%s { %s }" % (d.name, ", ".join("%s: %s" % (n, e) for (n, _, _), e in zip(b, vals)))
+                return "%s { %s }" % (d.path, ", ".join("%s: %s" % (n, e) for (n, _, _), e in zip(b, vals)))
             if d.style == "tuple":
-                return "%s(%s)" % (d.name, ", ".join(vals))
-            return d.name
+                return "%s(%s)" % (d.path, ", ".join(vals))
+            return d.path
         vn, st, fs = b[v[1]]
         vals = [rust_val(U, ft, x, cx) for (_, _, ft), x in zip(fs, v[2])]
         if st == "named":
-            return "%s::%s { %s }" % (d.name, vn, ", ".join("%s: %s" % (n, e) for (n, _, _), e in zip(fs, vals)))
+            return "%s::%s { %s }" % (d.path, vn, ", ".join("%s: %s" % (n, e) for (n, _, _), e in zip(fs, vals)))
         if st == "tuple":
-            return "%s::%s(%s)" % (d.name, vn, ", ".join(vals))
-        return "%s::%s" % (d.name, vn)
+            return "%s::%s(%s)" % (d.path, vn, ", ".join(vals))
+        return "%s::%s" % (d.path, vn)
     raise ValueError(t)
 
 
@@ -446,4 +452,6 @@ def rust_def(U, d):
         out.append("pub enum %s%s%s { %s }" % (d.name, g_decl, where, ", ".join(vs)))
         body = "match self { %s }" % " ".join(arms)
     out.append("impl%s Obs for %s%s%s { fn obs(&self, out: &mut String) { %s } }" % (g_impl, d.name, g_use, where, body))
+    if d.module:
+        return "pub mod %s {\nuse super::*;\n%s\n}" % (d.module, "\n".join(out))
     return "\n".join(out)
